@@ -474,6 +474,82 @@ def r5_lifespan(run):
                       where='%s:%s' % (f.file, cfg.node(cs).lineno))
 
 
+# ---------------------------------------------------------------------------
+# R6 wiring of the prepared stacks
+# ---------------------------------------------------------------------------
+
+def _kwarg(call, name, pos=None):
+    for k in call.keywords:
+        if k.arg == name:
+            return k.value
+    if pos is not None and len(call.args) > pos:
+        return call.args[pos]
+    return None
+
+
+def r6_wiring(run):
+    p = run.project
+    f = p.func('falcon.app.App.add_middleware')
+    cfg = cfg_of(f, p)
+    run.use_cfg(cfg)
+    # (a) registration order: the unprepared list only grows at its tail
+    writers = []
+    for n in walk_self(f.node):
+        if isinstance(n, ast.AugAssign) and is_self_attr(n.target, '_unprepared_middleware'):
+            writers.append(('tail' if isinstance(n.op, ast.Add) else 'other', n))
+        elif isinstance(n, ast.Assign) and any(is_self_attr(t, '_unprepared_middleware') for t in n.targets):
+            v = n.value
+            if isinstance(v, ast.BinOp) and isinstance(v.op, ast.Add) and is_self_attr(v.left, '_unprepared_middleware'):
+                writers.append(('tail', n))
+            else:
+                writers.append(('other', n))
+        elif isinstance(n, ast.Call) and isinstance(n.func, ast.Attribute) and is_self_attr(n.func.value, '_unprepared_middleware'):
+            if n.func.attr in ('append', 'extend'):
+                writers.append(('tail', n))
+            elif n.func.attr in ('insert', 'reverse', 'sort', 'pop', 'remove', 'clear'):
+                writers.append(('other', n))
+    if not writers:
+        raise AnchorError('add_middleware: no writer of _unprepared_middleware')
+    for kind, n in writers:
+        run.check(kind == 'tail', 'add_middleware appends new components after the existing ones (registration order is stack order)', f, n)
+    # (b) the prepared stacks are rebuilt from the full list with the configured mode on every normal path
+    assigns = [n for n in walk_self(f.node) if isinstance(n, ast.Assign) and any(is_self_attr(t, '_middleware') for t in n.targets)]
+    a = single(assigns, 'assignment to self._middleware', f.qual)
+    call = strip_await(a.value)
+    if not (isinstance(call, ast.Call) and dotted(call.func) == 'self._prepare_middleware'):
+        raise UnknownIdiom('add_middleware: self._middleware = %s' % short(a.value))
+    mw = _kwarg(call, 'middleware', 0)
+    ind = _kwarg(call, 'independent_middleware', 1)
+    run.check(mw is not None and is_self_attr(mw, '_unprepared_middleware'), 'stacks are prepared from the complete registered list', f, call)
+    run.check(ind is not None and is_self_attr(ind, '_independent_middleware'),
+              'stacks are prepared with the app\'s configured independent_middleware mode', f, call)
+    nid = single(cfg.nodes_for(a), 'CFG node of the assignment', f.qual)
+    path = flow.find_path(cfg, [cfg.entry], [cfg.exit], avoid_nodes=[nid], edge_filter=flow.no_exc)
+    run.check(path is None, 'every normal return of add_middleware has re-prepared the stacks', f, a,
+              witness=flow.describe_path(cfg, path) if path else None)
+    # (c) constructor stores the mode it was given
+    init = p.func('falcon.app.App.__init__')
+    run.use(init)
+    st = [n for n in walk_self(init.node) if isinstance(n, ast.Assign) and any(is_self_attr(t, '_independent_middleware') for t in n.targets)]
+    s0 = single(st, 'assignment to self._independent_middleware', init.qual)
+    run.check(isinstance(s0.value, ast.Name) and s0.value.id == 'independent_middleware' and 'independent_middleware' in init.params(),
+              'App.__init__ stores the independent_middleware argument unchanged', init, s0)
+    # (d) both _prepare_middleware wrappers pass their parameters through
+    for q, want_asgi in (('falcon.app.App._prepare_middleware', False), ('falcon.asgi.app.App._prepare_middleware', True)):
+        g = p.func(q)
+        run.use(g)
+        calls = [c for c in walk_self(g.node) if isinstance(c, ast.Call) and p.resolve_callable(g, c.func) is p.func('falcon.app_helpers.prepare_middleware')]
+        c = single(calls, 'call to prepare_middleware', q)
+        params = g.params()
+        mw = _kwarg(c, 'middleware', 0)
+        ind = _kwarg(c, 'independent_middleware', 1)
+        asg = _kwarg(c, 'asgi', 2)
+        run.check(isinstance(mw, ast.Name) and mw.id == params[1] and isinstance(ind, ast.Name) and ind.id == params[2],
+                  '%s forwards (middleware, independent_middleware) unchanged' % q, g, c)
+        asgi_val = p.fold(g.module, asg, None, g) if asg is not None else False
+        run.check(asgi_val is want_asgi, '%s selects the %s method variants' % (q, 'async' if want_asgi else 'sync'), g, c)
+
+
 def check(run):
     run.assume('user middleware does not mutate the prepared stacks at run time')
     run.assume('events of a call node are considered to have happened before its exceptional edge is taken')
@@ -482,3 +558,4 @@ def check(run):
     run.rule('R3', r3_stacks, 'prepare_middleware stack polarity', floor=4)
     run.rule('R4', r4_hooks, 'before/after hook wrappers', floor=6)
     run.rule('R5', r5_lifespan, 'lifespan handler sequencing', floor=10)
+    run.rule('R6', r6_wiring, 'registration order and mode wiring of the prepared stacks', floor=9)
